@@ -83,8 +83,11 @@ def gen_block(rng, level, nlevels, depth, budget, in_call=False, nosusp=False):
             break
         budget[0] -= 1
         r = rng.random()
-        if nosusp and r < 0.52:
-            r = 0.55 + rng.random() * 0.45
+        if nosusp:
+            if r < 0.52:
+                r = 0.55 + rng.random() * 0.45
+            if 0.68 <= r < 0.73:      # no `return` either: it would swallow the GeneratorExit
+                r = 0.55
         if r < 0.28:
             if rng.random() < 0.88:
                 m = rng.randint(0, level) if rng.random() < 0.5 else level
@@ -95,7 +98,7 @@ def gen_block(rng, level, nlevels, depth, budget, in_call=False, nosusp=False):
             out.append(("S", rng.randint(100, 199)))
         elif r < 0.52 and level + 1 < nlevels:
             m = level + 1 if rng.random() < 0.88 else rng.randint(0, 3)
-            out.append(("U", m, gen_op(rng, True), rng.choice(["u", "b", "B"])))
+            out.append(("U", m, gen_op(rng, True), "u"))
         elif r < 0.62:
             out.append(("L", rng.randint(1, 9)))
         elif r < 0.68:
@@ -108,7 +111,10 @@ def gen_block(rng, level, nlevels, depth, budget, in_call=False, nosusp=False):
             for _ in range(rng.choice([0, 1, 1, 2])):
                 cls = rng.choice(["GE", "CE", "E1", "E2", "RT", "OOB", "EXC", "BASE", "OOB" if level + 1 < nlevels else "GE"])
                 ns = nosusp or (in_call and cls in ("GE", "BASE"))
-                hs.append((cls, gen_block(rng, level, nlevels, depth + 1, budget, in_call, ns) if rng.random() < 0.8 else []))
+                hb = gen_block(rng, level, nlevels, depth + 1, budget, in_call, ns) if rng.random() < 0.8 else []
+                if in_call and cls in ("GE", "BASE"):
+                    hb = hb + [("R", "GE")]      # a nested frame must not swallow GeneratorExit and carry on
+                hs.append((cls, hb))
             fin = gen_block(rng, level, nlevels, depth + 1, budget, in_call, nosusp or in_call) if rng.random() < 0.5 else []
             out.append(("TRY", body, hs, fin))
         elif depth < 3:
@@ -121,9 +127,9 @@ def gen_block(rng, level, nlevels, depth, budget, in_call=False, nosusp=False):
 def gen_parent_loopish(rng, level):
     """a parent that keeps relaying its child's oob data: the typical use"""
     m = level + 1
-    out = [("U", m, ("st",), rng.choice(["u", "b"]))]
+    out = [("U", m, ("st",), "u")]
     for _ in range(rng.randint(1, 3)):
-        out.append(("TRY", [("U", m, ("aw", rng.choice(VALS)), rng.choice(["u", "b"]))],
+        out.append(("TRY", [("U", m, ("aw", rng.choice(VALS)), "u")],
                     [("OOB", [("O", level, rng.randint(10, 99))] if rng.random() < 0.5 else [])], []))
     return out
 
@@ -137,6 +143,9 @@ def gen_case(rng):
         else:
             progs.append(gen_block(rng, lv, nlevels, 0, [rng.randint(4, 14)]))
     script = []
+    r0 = rng.random()
+    if r0 < 0.85:     # a sensible first call (a non-None first send is a TypeError and nothing else)
+        script.append(("call", 0, rng.choice(["u", "b", "B"]), ("aw", 0) if r0 < 0.55 else ("st",) if r0 < 0.75 else ("ta", 0, 9)))
     for _ in range(rng.randint(2, 9)):
         r = rng.random()
         if r < 0.62:
@@ -214,7 +223,7 @@ class Real:
         return tok
 
     def next_response(self):
-        v = self.responses.pop(0)
+        v = self.responses.pop(0) if self.responses else 0
         return None if v == 0 else v
 
     def make_oob(self):
@@ -232,20 +241,27 @@ class Real:
         return OOB
 
     def make_sub(self, child):
-        M, olog, OOBData = self.M, self.olog, self.OOBData
+        real, M, olog, OOBData = self, self.M, self.olog, self.OOBData
 
-        async def SUB(m, op, fl):
-            olog.append(("drv", m, op, M[m].state, corostate(child)))
-            try:
-                x = await self.mkcall(m, child, op, fl)
-            except OOBData as e:
-                olog.append(("got", m, mp.cv(e.data), M[m].state))
-                raise
-            except BaseException as e:
-                olog.append(("exc", m, mp.canon_exc(e), M[m].state))
-                raise
-            olog.append(("ret", m, mp.cv(x), M[m].state))
-            return x
+        class SUB:
+            @staticmethod
+            def drv(m, op):
+                olog.append(("drv", m, op, M[m].state, corostate(child)))
+
+            @staticmethod
+            def mk(m, op, fl):
+                return real.mkcall(m, child, op, fl)
+
+            @staticmethod
+            def exc(m, e):
+                if isinstance(e, OOBData):
+                    olog.append(("got", m, mp.cv(e.data), M[m].state))
+                else:
+                    olog.append(("exc", m, mp.canon_exc(e), M[m].state))
+
+            @staticmethod
+            def ret(m, x):
+                olog.append(("ret", m, mp.cv(x), M[m].state))
         return SUB
 
     def mkcall(self, m, coro, op, fl):
@@ -536,6 +552,8 @@ def oracle(olog, tags):
                 # close() of the suspended call: a clean exit (return / GeneratorExit) is `None`
                 tags.add("closed-cleanly" if (k == "bodyret" or x == "GeneratorExit") else "exception-on-close")
                 exp = ("ret", m, 0, 0) if (k == "bodyret" or x == "GeneratorExit") else ("exc", m, x, 0)
+                if exp[:3] == ("exc", m, "StopIteration"):
+                    exp = ("exc", m, "RuntimeError", 0)          # PEP 479
                 if nxt != exp:
                     return "result-delivered", i, exp, nxt
                 continue
@@ -597,7 +615,9 @@ def judge(case):
     # Task / await_sync driving must agree with raw driving of the same trace
     mode_bad = None
     body_oob = any(ev[0] == "bodyexc" and str(ev[2]).startswith("OOBData") for ev in real.olog)
-    if bad is None and lines and not body_oob and not any(ln.startswith(("throw", "close")) for ln in lines):
+    ol = real.olog
+    swallowed = any(ev[0] == "susp" and not (i + 1 < len(ol) and ol[i + 1][0] == "pend") for i, ev in enumerate(ol))
+    if bad is None and lines and not body_oob and not swallowed and not any(ln.startswith(("throw", "close")) for ln in lines):
         npend = sum(1 for o in outs if o.startswith("pend"))
         nsend = sum(1 for ln in lines if ln.startswith("send"))
         reent = any(outs[i].startswith("pend") and i + 1 < len(lines) and lines[i + 1].startswith("call")
@@ -755,7 +775,7 @@ def corpus_cases():
 def run(ctx):
     rng = ctx.rng
     explore(ctx, corpus_cases(), label="corpus: ")
-    n = 12000 if ctx.thorough() else 2500
+    n = 120000 if ctx.thorough() else 10000
     batch = 2500
     done = 0
     while done < n:
